@@ -29,8 +29,10 @@ func rulesC01(c *Ctx) {
 	ruleOpResultID(c)
 	ruleFatalEndsSession(c)
 	ruleTableKeyIdentity(c)
-	ruleFlushTotal(c)      // a flush acknowledged OK leaves nothing installed in the flushed instances (shared with C08)
-	ruleForwarderJoined(c) // installed ⇒ acknowledged: a result produced for the stream is written before the RPC ends (shared with C06)
+	rulePendingWriters(c)    // an accepted operation that is held leaves the held set only with a verdict (shared with C02/C06)
+	rulePendingPrimitives(c) // …
+	ruleFlushTotal(c)        // a flush acknowledged OK leaves nothing installed in the flushed instances (shared with C08)
+	ruleForwarderJoined(c)   // installed ⇒ acknowledged: a result produced for the stream is written before the RPC ends (shared with C06)
 }
 
 // R1.2
